@@ -1,9 +1,11 @@
 //! `cs` component (C12 close_only_close): the real CloseSender with a virtual clock.
 //! case = [timeout_ms, rtt_ms, packet_len, ops...]
-//!   1 dt   advance the clock by dt ms, on_timeout         -> out: 1 r   (r = 1 closing period over)
-//!   2      a datagram is received                          -> out: 2
-//!   3      opportunity to send                             -> out: 3 r   (r = 0 nothing sent, 1 the close
-//!                                                             packet was sent, 2 something else was sent)
+//! After every event the sender gets an opportunity to send (as the connection's event loop gives it);
+//! s = 0 nothing sent, 1 the close packet was sent, 2 something else was sent.
+//!   (start)                                               -> out: 9 s
+//!   1 dt   advance the clock by dt ms, on_timeout         -> out: 1 r s (r = 1 closing period over)
+//!   2      a datagram is received                          -> out: 2 s
+//!   3      one more opportunity to send                    -> out: 3 s
 use h_common::{Cur, V};
 use s2n_quic_transport::verif_hooks::close_sender as hook;
 
@@ -15,23 +17,31 @@ pub fn cs(input: &[V]) -> Vec<V> {
     let packet: Vec<u8> = (0..plen).map(|i| (i * 7 + 3) as u8).collect();
     let mut s = hook::Closer::new(&packet, timeout);
     let mut out: Vec<V> = vec![];
+    let send = |s: &mut hook::Closer| -> V {
+        match s.try_transmit() {
+            None => 0,
+            Some(b) if b == packet => 1,
+            Some(_) => 2,
+        }
+    };
+    let first = send(&mut s);
+    out.extend([9, first]);
     while !c.done() {
         match c.next() {
             1 => {
                 let dt = c.u64() % 10_000;
-                out.extend([1, s.advance(dt) as V]);
+                let r = s.advance(dt) as V;
+                let t = send(&mut s);
+                out.extend([1, r, t]);
             }
             2 => {
                 s.datagram_received(rtt);
-                out.push(2);
+                let t = send(&mut s);
+                out.extend([2, t]);
             }
             3 => {
-                let r = match s.try_transmit() {
-                    None => 0,
-                    Some(b) if b == packet => 1,
-                    Some(_) => 2,
-                };
-                out.extend([3, r]);
+                let t = send(&mut s);
+                out.extend([3, t]);
             }
             _ => break,
         }
